@@ -93,6 +93,15 @@ func VerifC08Floor() {
 	zzverif.Assume(zzverif.And(r > 0, r <= w.dealt))
 	// the whole prefix, a directory, or the interval that holds exactly one key ([k, k+0x00))
 	rg := [][2][]byte{vRanges[0], vRanges[2], {vNames[0], append(append([]byte(nil), vNames[0]...), 0)}}[zzverif.Choose("interval", 3)]
+	if zzverif.Param("getfault", 0) == 1 {
+		// one of the engine's point reads during the request (the compaction record is read that
+		// way) fails transiently: the request may fail, it is never answered with data below the floor
+		if at := zzverif.Choose("getfault", 4); at > 0 {
+			w.s.NGets = 0
+			w.s.GetFault = func(key []byte, n int) bool { return n == at-1 }
+			zzverif.Cover("record-unreadable-once")
+		}
+	}
 	switch zzverif.Choose("read", 3) {
 	case 0:
 		resp, err := w.b.List(vCtx(), &proto.RangeRequest{Key: rg[0], End: rg[1], Revision: r})
